@@ -9,6 +9,8 @@ import Ark.Props.C01World
 import Ark.Proofs.Rejects
 import Ark.Proofs.Pool
 
+set_option autoImplicit false
+
 namespace Ark
 namespace Pool
 
@@ -687,8 +689,161 @@ theorem removeEntity_spec_partial (run : ProbeRunner) {w : World} {fl : List Nat
 
 /-- `RemoveEntity` of a dead handle is rejected with the state unchanged (restated from
     `Ark.World.opRemoveEntity_dead`) -/
-theorem removeEntity_dead (run : ProbeRunner) (w : World) (hl : w.isLocked = false) (e : Ent)
+theorem removeEntity_dead (run : World.ProbeRunner) (w : World) (hl : w.isLocked = false) (e : Ent)
     (hd : w.alive e = false) : World.opRemoveEntity run e w = .panic .deadEntity w :=
   World.opRemoveEntity_dead run w hl e hd
+
+/-! ### `Map.Set` / `writeVals` -/
+
+namespace World
+
+theorem writeValsW_entities (w : World) (e : Ent) (vals : List (Comp × Val)) :
+    (writeValsW w e vals).entities = w.entities := rfl
+
+theorem writeValsW_pool (w : World) (e : Ent) (vals : List (Comp × Val)) :
+    (writeValsW w e vals).pool = w.pool := rfl
+
+/-- `Set` on an alive entity that has all the components, without `OnSetComponents`
+    observers: the values are written, nothing else happens (no lock check: `Set` is allowed on
+    a locked world) -/
+theorem opSet_eq (run : ProbeRunner) (w : World) (e : Ent) (ids : List Comp)
+    (vals : List (Comp × Val)) (ha : w.alive e = true)
+    (hhas : (ids.all fun c => (w.tbl (w.index e.id).1).has c) = true)
+    (hno : w.obs.hasObservers Ev.onSetComponents = false) :
+    opSet run e ids vals w = .ok () (writeValsW w e vals) := by
+  have h2 : (writeValsW w e vals).obs.hasObservers Ev.onSetComponents = false := hno
+  simp only [opSet, bind, M.bind, M.get, M.assert, ha, if_true, hhas, writeVals_eq, h2,
+    Bool.false_eq_true, if_false, pure, M.pure]
+
+/-- `Set` naming a component the entity lacks is rejected with the state unchanged -/
+theorem opSet_missing (run : ProbeRunner) (w : World) (e : Ent) (ids : List Comp)
+    (vals : List (Comp × Val)) (ha : w.alive e = true)
+    (hhas : (ids.all fun c => (w.tbl (w.index e.id).1).has c) = false) :
+    opSet run e ids vals w = .panic .missing w := by
+  simp only [opSet, bind, M.bind, M.get, M.assert, ha, if_true, hhas, Bool.false_eq_true, if_false]
+
+end World
+
+open World in
+/-- `writeVals` on a live entity keeps the invariant and changes only that entity's values -/
+theorem writeVals_winv {w : World} {fl : List Nat} (h : WInv w fl) (e : Ent) (h2 : 2 ≤ e.id)
+    (hnf : e.id ∉ fl) (ha : w.alive e = true) (vals : List (Comp × Val)) :
+    WInv (writeValsW w e vals) fl ∧
+    (writeValsW w e vals).isLocked = w.isLocked ∧
+    (∀ x : Ent, (writeValsW w e vals).alive x = w.alive x) ∧
+    (∀ j : Nat, j ≠ e.id → SameEnt w (writeValsW w e vals) j) ∧
+    (∀ c : Comp, (∀ cv ∈ vals, cv.1 ≠ c) → valOf (writeValsW w e vals) e.id c = valOf w e.id c) ∧
+    compsOf (writeValsW w e vals) e.id = compsOf w e.id := by
+  obtain ⟨row, he, _⟩ := h.live_entry h2 hnf ha
+  have ht : (0 : Nat) ≠ maxU32 := by decide
+  obtain ⟨hT0, hrow, _⟩ := h.idx.indexed he ht
+  obtain ⟨_, hids0⟩ := h.tab0_get
+  have hix := index_of_get he
+  have hw := writeVals_writeRel (w.tbl 0) row vals hrow
+  have hWV : writeValsW w e vals = w.setTbl 0
+      (vals.foldl (fun T (cv : Comp × Val) => T.setComp cv.1 row cv.2) (w.tbl 0)) := by
+    simp only [writeValsW, hix]; rfl
+  obtain ⟨f1, f2, f3⟩ := write_frame h.idx e vals he ht
+  refine ⟨?_, rfl, fun _ => rfl, f1, f2, f3⟩
+  have hTab : (writeValsW w e vals).tables =
+      [vals.foldl (fun T (cv : Comp × Val) => T.setComp cv.1 row cv.2) (w.tbl 0)] := by
+    obtain ⟨T, hT1, _⟩ := h.tab0
+    rw [hWV, setTbl_tables, hT1]; rfl
+  exact
+    { idx := h.idx.writeVals e vals he ht
+      pool := h.pool
+      stale := h.stale
+      lenEq := h.lenEq
+      tgtLen := h.tgtLen
+      freeUnindexed := h.freeUnindexed
+      reservedUnindexed := h.reservedUnindexed
+      liveIndexed := h.liveIndexed
+      fewTables := by rw [hTab]; show 1 ≤ maxU32; decide
+      tab0 := ⟨_, hTab, by rw [hw.ids]; exact hids0⟩
+      noTargets := h.noTargets
+      noObs := h.noObs }
+
+open World in
+/-- `writeVals` on a live entity keeps the row count of table 0 -/
+theorem writeVals_rows {w : World} {fl : List Nat} (h : WInv w fl) (e : Ent) (h2 : 2 ≤ e.id)
+    (hnf : e.id ∉ fl) (ha : w.alive e = true) (vals : List (Comp × Val)) :
+    ((writeValsW w e vals).tbl 0).len = (w.tbl 0).len := by
+  obtain ⟨row, he, _⟩ := h.live_entry h2 hnf ha
+  have ht : (0 : Nat) ≠ maxU32 := by decide
+  obtain ⟨hT0, hrow, _⟩ := h.idx.indexed he ht
+  have hw := writeVals_writeRel (w.tbl 0) row vals hrow
+  have hWV : writeValsW w e vals = w.setTbl 0
+      (vals.foldl (fun T (cv : Comp × Val) => T.setComp cv.1 row cv.2) (w.tbl 0)) := by
+    simp only [writeValsW, index_of_get he]; rfl
+  rw [hWV, setTbl_tbl_self _ (lt_of_get hT0)]
+  exact hw.len
+
+open World in
+/-- **opSet_spec** — `Set` with an empty component list on a live entity succeeds, keeps the
+    invariant and changes nothing but (at most) that entity's values; independent of `run` -/
+theorem opSet_spec (run : ProbeRunner) {w : World} {fl : List Nat} (h : WInv w fl) (e : Ent)
+    (h2 : 2 ≤ e.id) (hnf : e.id ∉ fl) (ha : w.alive e = true) (vals : List (Comp × Val)) :
+    ∃ w', opSet run e [] vals w = .ok () w' ∧ WInv w' fl ∧ w'.isLocked = w.isLocked ∧
+      (∀ x : Ent, w'.alive x = w.alive x) ∧
+      (∀ j : Nat, j ≠ e.id → SameEnt w w' j) ∧
+      (∀ c : Comp, (∀ cv ∈ vals, cv.1 ≠ c) → valOf w' e.id c = valOf w e.id c) ∧
+      compsOf w' e.id = compsOf w e.id :=
+  ⟨writeValsW w e vals, opSet_eq run w e [] vals ha rfl (h.noObs _), writeVals_winv h e h2 hnf ha vals⟩
+
+open World in
+/-- in this fragment entities have no components: `Set` with a non-empty component list on a
+    live entity panics `missing`, state unchanged -/
+theorem opSet_missing_frag (run : ProbeRunner) {w : World} {fl : List Nat} (h : WInv w fl)
+    (e : Ent) (h2 : 2 ≤ e.id) (hnf : e.id ∉ fl) (ha : w.alive e = true) (c : Comp)
+    (ids : List Comp) (vals : List (Comp × Val)) :
+    opSet run e (c :: ids) vals w = .panic .missing w := by
+  obtain ⟨row, he, _⟩ := h.live_entry h2 hnf ha
+  obtain ⟨_, hids0⟩ := h.tab0_get
+  apply opSet_missing run w e (c :: ids) vals ha
+  have : (w.tbl (w.index e.id).1).has c = false := by
+    rw [index_of_get he]
+    simp only [Table.has, Table.colIdx, hids0]
+    rfl
+  simp only [List.all_cons, this, Bool.false_and]
+
+/-- `Set` on a dead handle is rejected with the state unchanged (restated from
+    `Ark.World.opSet_dead`) -/
+theorem opSet_dead (run : World.ProbeRunner) (w : World) (e : Ent) (hd : w.alive e = false)
+    (ids : List Comp) (vals : List (Comp × Val)) :
+    World.opSet run e ids vals w = .panic .deadEntity w :=
+  World.opSet_dead run w e hd ids vals
+
+/-! ### independence of the callback runner (no observers are registered) -/
+
+open World in
+theorem newEntity0_run_indep (run run' : ProbeRunner) {w : World} {fl : List Nat} (h : WInv w fl)
+    (hl : w.isLocked = false) : opNewEntity0 run w = opNewEntity0 run' w := by
+  rw [opNewEntity0_eq run w hl (h.noObs _), opNewEntity0_eq run' w hl (h.noObs _)]
+
+open World in
+theorem removeEntity_run_indep (run run' : ProbeRunner) {w : World} {fl : List Nat}
+    (h : WInv w fl) (hl : w.isLocked = false) (e : Ent)
+    (hgen : w.alive e = true → 2 ≤ e.id ∧ e.id ∉ fl) :
+    opRemoveEntity run e w = opRemoveEntity run' e w := by
+  cases ha : w.alive e with
+  | false => rw [opRemoveEntity_dead run w hl e ha, opRemoveEntity_dead run' w hl e ha]
+  | true =>
+    obtain ⟨h2, hnf⟩ := hgen ha
+    obtain ⟨row, he, _⟩ := h.live_entry h2 hnf ha
+    rw [opRemoveEntity_eq run w e hl ha (index_of_get he) h.noObs (h.noTargets _),
+      opRemoveEntity_eq run' w e hl ha (index_of_get he) h.noObs (h.noTargets _)]
+
+open World in
+theorem opSet_run_indep (run run' : ProbeRunner) {w : World} {fl : List Nat} (h : WInv w fl)
+    (e : Ent) (ids : List Comp) (vals : List (Comp × Val)) :
+    opSet run e ids vals w = opSet run' e ids vals w := by
+  cases ha : w.alive e with
+  | false => rw [World.opSet_dead run w e ha, World.opSet_dead run' w e ha]
+  | true =>
+    cases hhas : (ids.all fun c => (w.tbl (w.index e.id).1).has c) with
+    | false => rw [opSet_missing run w e ids vals ha hhas, opSet_missing run' w e ids vals ha hhas]
+    | true =>
+      rw [opSet_eq run w e ids vals ha hhas (h.noObs _),
+        opSet_eq run' w e ids vals ha hhas (h.noObs _)]
 
 end Ark
